@@ -144,10 +144,10 @@ prop('C03', COMMON +
       (RL.try_rule, None), (RO.c03_dormant, None), (RO.c10_fetch, None), (RP.park_wake, None), (RQ.qd_wake_blocked, None), (RP.tr_roles, None), (RP.tr_dead, None), (RQ.qd_run, None), (RO.c10_thread, None), (RO.rs_strength, None, ['SchedulerCore']), (RU.ua_leak, None), (RE.eo, None, ['^SchedulerCore::', '^<SchedulerCore::', '^JobQueue::', '^<JobQueue::', '^Scheduler::schedule_job_desync', '^<Scheduler::schedule_job_desync', '^WakeQueue', '^<WakeQueue', '^WakeThread', '^<WakeThread', '^SchedulerThread::', '^<SchedulerThread::', '^FutureJob::', '^<FutureJob::', 'floor', 'baseline']), (RP.tr_base, None), (RE.eo, None, ['^JobQueue::', '^<JobQueue::', '^Scheduler::schedule_job_desync', '^<Scheduler::schedule_job_desync']), (RO.c08, None, ['result-after-scheduler'])] + G_CORE + G_CORE)
 
 prop('C04', COMMON +
-     'Decided: the sync strategy is chosen in one critical section and waits only when somebody owns or will wake the queue (TR-defer); the condition-variable handshake of the blocked caller (CV1, CV2); '
+     'Decided: the sync strategy is chosen in one critical section and waits only when somebody owns or will wake the queue (TR-defer); the condition-variable handshake of the blocked caller (CV1, CV2, CV3: the guard handed to wait() is a hold under which the condition was read); '
      'the blocked caller stays registered until it leaves and retries to claim the queue after each wake-up (QD-waiters, ORD-C04-steal) and stops running jobs as soon as its own closure is through (ORD-C04-stop); it does not return before its lifetime-erased job is gone (UA-wait) and returns its own slot\'s value (ORD-C04-result); '
      'no lock cycle and nothing foreign or blocking under an internal lock (LO, BL); caller-side execution holds the token (TOK-exec).',
-     ['strategy chosen atomically; waits only when the queue is owned or parked (TR-defer)', 'blocked caller cannot miss its wake-up (CV1, CV2, QD-waiters)', 'caller runs the queue itself when woken and it is claimable (ORD-C04-steal)', 'a caller running the queue re-tests its own completion before every further job, so it returns without running what is queued behind it (ORD-C04-stop)',
+     ['strategy chosen atomically; waits only when the queue is owned or parked (TR-defer)', 'blocked caller cannot miss its wake-up (CV1, CV2, CV3, QD-waiters)', 'caller runs the queue itself when woken and it is claimable (ORD-C04-steal)', 'a caller running the queue re-tests its own completion before every further job, so it returns without running what is queued behind it (ORD-C04-stop)',
       'own result, after completion (ORD-C04-result, UA-wait)', 'the completion handshake (condition variable, ready flag) is created by the call and shared with nobody (ORD-C04-private)', 'no lock-order cycle, no blocking/foreign code under an internal lock (LO, BL)', 'caller-side execution holds the token (TOK-exec)', 'caller-side parking: wake latched while polling, consumed before parking, unpark + re-check loop (PARK-wake, ORD-C06-drain)'],
      ['termination of the operations ahead; OS fairness', '"from inside a job of a different Desync" is derived from BL (no internal lock is held while a job runs)'],
      [(RP.tr_defer, None, ['sync']), (RL.cv, None), (RQ.qd_wake_blocked, None), (RQ.qd_run, None), (RP.tr_roles, None), (RP.tr_dead, None), (RO.free_delegates, None, ['sync|']), (RG.c15_reap, None), (RO.c08, None, ['result-after-scheduler']), (RO.c04_steal, None), (RO.c04_stop, None), (RO.c04_result, None), (RO.c04_private, None), (RU.ua_wait, None), (RL.lo, None), (RL.bl, None), (RL.lock_classes, None), (RP.tok_exec, None), (RP.tok_resched, None),
